@@ -248,7 +248,8 @@ def meta_rules(repo: Repo, rep, P: str):
     incs = [n for n in ast.walk(init) if (isinstance(n, ast.AugAssign) and norm(n.target).endswith("._next_order") and isinstance(n.op, ast.Add)
                                           and norm(n.value) == "1")
             or (isinstance(n, ast.Assign) and any(norm(t).endswith("._next_order") for t in n.targets)
-                and norm(n.value).replace(" ", "") in ("Controller._next_order+1", "1+Controller._next_order"))]
+                and norm(resolve_names(n.value, idefs)).replace(" ", "") in ("Controller._next_order+1", "1+Controller._next_order",
+                                                                            "type(self)._next_order+1", "self.__class__._next_order+1"))]
     # the value may have been read into a temporary before the increment
     reads = [n for n in ast.walk(init) if isinstance(n, ast.Assign) and len(n.targets) == 1 and isinstance(n.targets[0], ast.Name)
              and norm(n.value) in ("Controller._next_order", "type(self)._next_order", "self.__class__._next_order")]
